@@ -460,7 +460,7 @@ func checkC07(c *Ctx) {
 
 	// ---- random structured cases ----------------------------------------------------------------------------------
 	lenPool := []int{0, 1, 1, 2, 7, 16, 100, 511, 512, 513, 1023, 1024, 1025, 2047, 2048, 2049, 3000, 4095, 4096, 4097, -1}
-	for i := 0; i < c.Pick(2500, 40000); i++ {
+	for i := 0; i < c.Pick(2500, 250000); i++ {
 		id := c.CaseID("rnd", i)
 		if c.Skip(id) {
 			continue
